@@ -17,6 +17,8 @@ def _A(env, n, cls):
         return env.qarr('a', (n, n), 'complex')
     if cls == 'identity':
         return cm.qmat_from_nested(env, cm.eye_nested(n))
+    if cls == 'diag_1_2':            # concrete diag(1, 2): two distinct eigenvalues, so the first restart cycle (m = 1) is inexact for generic b
+        return cm.qmat_from_nested(env, [[[(i + 1) if i == j else 0, 0, 0, 0] for j in range(n)] for i in range(n)])
     if cls == 'scaled_identity':
         c = env.real('c')
         env.assume(c >= Fraction(1, 10 ** 6) if env.symbolic else c >= 1e-6, 'c >= 1e-6')
@@ -69,7 +71,11 @@ def _nonsingular(env, A, n, cls):
 def gmres(env, n, cls, bkind='full', sparse=False, prec=None, max_iter=None, tol='1e-6'):
     Sv = env.R.solver
     A = _A(env, n, cls)
-    b = env.qarr('b', (n, 1), bkind)
+    if bkind == 'scaled_ones':       # b = beta (1, ..., 1)^T, beta symbolic: a one-parameter family on which ||b|| ranges over (0, inf)
+        beta = env.real('beta')
+        b = cm.qmat_from_nested(env, [[[beta, 0, 0, 0]] for _ in range(n)])
+    else:
+        b = env.qarr('b', (n, 1), bkind)
     _nonsingular(env, A, n, cls)
     tolv = Fraction(tol) if env.symbolic else float(Fraction(tol))
     solver = Sv.QGMRESSolver(tol=float(Fraction(tol)) if not env.symbolic else tolv, max_iter=max_iter, preconditioner=prec)
@@ -225,14 +231,17 @@ def cells():
     for tol, name in [('1/100', '1e-2'), ('1/1000000000000', '1e-12')]:
         out.append(Cell('gmres[n=1,A complex,b complex,tol=%s]' % name, 'c04:gmres', dict(n=1, cls='complex', bkind='complex', tol=tol), twin=False,
                         bounds='A 1x1, b symbolic (complex subfield); tol %s' % name, **big))
-    for cls, bk, tier in [('identity', 'full', 'quick'), ('scaled_identity', 'full', 'quick'), ('diag_repeated', 'real', 'thorough'),
+    for cls, bk, tier in [('identity', 'full', 'quick'), ('scaled_identity', 'full', 'quick'), ('diag_1_2', 'real', 'thorough'), ('diag_repeated', 'real', 'thorough'),
                           ('diag_real', 'real', 'thorough'), ('diag_repeated', 'full', 'thorough'), ('upper', 'real', 'thorough'),
                           ('hermitian_real', 'real', 'thorough'), ('real', 'real', 'thorough'), ('rank_one_update', 'real', 'thorough'),
                           ('unitary_diag', 'real', 'thorough')]:
         out.append(Cell('gmres[n=2,%s,b %s]' % (cls, bk), 'c04:gmres', dict(n=2, cls=cls, bkind=bk), tier=tier,
                         twin=False,
                         bounds='A 2x2 of class %s, b %s symbolic; default iteration cap; all breakdown paths' % (cls, bk), **big))
-    for cls, mi, tier in [('identity', 1, 'quick'), ('scaled_identity', 1, 'quick'), ('diag_real', 1, 'thorough'), ('real', 1, 'thorough'), ('identity', 0, 'quick')]:
+    for mi in (1, None):
+        out.append(Cell('gmres[n=2,diag(1,2),b=beta(1,1),max_iter=%s]' % mi, 'c04:gmres', dict(n=2, cls='diag_1_2', bkind='scaled_ones', max_iter=mi), tier='quick', twin=False,
+                        bounds='A = diag(1, 2) concrete, b = beta (1,1)^T with beta symbolic (||b|| from 0 to inf): the first restart cycle is inexact', **big))
+    for cls, mi, tier in [('identity', 1, 'quick'), ('scaled_identity', 1, 'quick'), ('diag_1_2', 1, 'thorough'), ('diag_real', 1, 'thorough'), ('real', 1, 'thorough'), ('identity', 0, 'quick')]:
         out.append(Cell('gmres[n=2,%s,max_iter=%d]' % (cls, mi), 'c04:gmres', dict(n=2, cls=cls, bkind='real', max_iter=mi), tier=tier,
                         twin=(cls == 'identity' and mi == 1), twin_timeout_s=300, bounds='iteration cap %d' % mi, **big))
     for cls, tier in [('identity', 'quick'), ('diag_real', 'thorough')]:
